@@ -136,6 +136,41 @@ def _dec_shard(shard):
 
 ALPHA4 = (0x00, 0x01, 0x02, 0x7F, 0x80, 0xFD, 0xFE, 0xFF)
 
+# call sequences: a pure codec must not remember earlier calls (hidden module-level state)
+SEQ_NUMS = (0, 1, 252, 253, 300, P2 - 1, P2, P2 + 300, P3 - 1, P3, P3 + P2, P4 - 1, 2 * P3 + 5)
+SEQ_BYTES = (b"", b"\x00", b"\xfe", b"\x05", b"\xfe\x05", b"\x05\x05", b"\x02\xfe\x09", b"\x05\x05\x05", b"\x05\x05\x05\x05",
+             b"\xfe\xfe\xfe\x02", b"\xff\xff\xff\xff", b"\x01\x01\x01\x01\x01")
+
+
+def check_sequence(seq):
+    """seq: list of ('e', n) / ('d', bytes).  Every call's result is compared with the reference."""
+    enc, dec = _codec()
+    for i, (kind, arg) in enumerate(seq):
+        if kind == "e":
+            got, exp = enc(int(arg)), enc_number(int(arg))
+        else:
+            got, exp = dec(bytes(arg)), dec_number(bytes(arg))
+        if got != exp:
+            shown = got.hex() if isinstance(got, bytes) else got
+            return f"call #{i} of sequence {[(k, a.hex() if isinstance(a, bytes) else a) for k, a in seq]} returned {shown}"
+    return None
+
+
+def _seq_cases(depth):
+    atoms = [("e", n) for n in SEQ_NUMS] + [("d", b) for b in SEQ_BYTES]
+    for d in range(2, depth + 1):
+        yield from itertools.product(atoms, repeat=d)
+
+
+def _seq_shard(cases):
+    loader.install_shims()
+    bad = []
+    for seq in cases:
+        w = check_sequence(seq)
+        if w and len(bad) < 3:
+            bad.append((list(seq), w))
+    return len(cases), bad
+
 
 def run(tier, seed):
     loader.install_shims()
@@ -199,6 +234,14 @@ def run(tier, seed):
         add("decode", [b""], lambda b: "empty")
     evals += n_dec + 1
 
+    seq_cases = list(_seq_cases(3 if tier == "quick" else 4))
+    res = par.pmap(_seq_shard, par.chunks(seq_cases, W))
+    n_seq = sum(r[0] for r in res)
+    evals += n_seq
+    for _, bad in res:
+        for seq, what in bad:
+            violations.append({"key": "sequence:" + ",".join(k for k, _ in seq), "what": what, "case": {"kind": "sequence", "value": [[k, a] for k, a in seq]}})
+
     samples = [
         {"n": n, "encoded": enc(n).hex(), "decoded": dec(enc(n))} for n in (0, 252, 253, 64008, 64009, P3 - 1, P3, P4 - 1)
     ] + [{"bytes": s.hex(), "decoded": dec(s)} for s in (b"", b"\x00", b"\xfe\x05", b"\x02\xfe\x09", b"\xff\xff\xff\xff")]
@@ -207,6 +250,7 @@ def run(tier, seed):
         "distinct_nontrivial": evals - 1,
         "encode": enc_desc,
         "decode_strings": n_dec + 1,
+        "call_sequences": n_seq,
         "decode_exhaustive_up_to_len": 3,
         "decode_len4_alphabet_bytes_1_2": [hex(x) for x in ALPHA4],
         "exhaustive": tier == "thorough" and enc_desc.get("whole_int_range_exhaustive", False),
@@ -215,7 +259,7 @@ def run(tier, seed):
             "division reference (no 0x00/0xFF, 0xFE filler exactly above the significant bytes), decode(encode(n))==n, "
             "and decode of every prefix of length k>=significant bytes == n.  decode side: every byte string of "
             "length 0..3 (16,843,009) plus length 4/5 strings with byte 3 over all 256 values and bytes 1-2 over the "
-            "reduced alphabet, compared with the positional formula.  Non-trivial = all but the empty string."
+            "reduced alphabet, compared with the positional formula.  call_sequences: every ordered sequence of 2..3/4 calls over 13 boundary integers and 12 byte strings (hidden-state detection).  Non-trivial = all but the empty string."
         ),
         "samples": samples,
     }
@@ -225,6 +269,8 @@ def run(tier, seed):
 def replay(case):
     loader.install_shims()
     enc, dec = _codec()
+    if case["kind"] == "sequence":
+        return check_sequence([(k, a) for k, a in case["value"]])
     if case["kind"] == "encode":
         n = int(case["value"])
         e = enc(n)
